@@ -31,7 +31,10 @@ where
             .into_iter()
             .map(|v| num_traits::cast::<B, i64>(v).unwrap())
             .collect();
-        json!({"len": len, "gets": gets, "nones": nones, "beyond_none": beyond_none, "iter": it, "dec": dec})
+        let nth_nones = (len..len + 9).filter(|&n| s.iter().nth(n).is_none()).count();
+        let step3: Vec<i64> = s.iter().step_by(3).map(|v| num_traits::cast::<B, i64>(v).unwrap()).collect();
+        json!({"len": len, "gets": gets, "nones": nones, "beyond_none": beyond_none, "iter": it, "dec": dec,
+               "nth_nones": nth_nones, "step3": step3})
     });
 }
 
@@ -129,6 +132,132 @@ where
     }
 }
 
+/// Wide type pairs: values do not fit the checker's integers, so they are logged as canonical decimal
+/// strings (the specification only compares values for equality and with the small type's maximum).
+fn wide_history<S, B>(log: &mut Log, rng: &mut Rng, ty: &str)
+where
+    S: num_integer::Integer + Bounded + NumCast + Copy + std::fmt::Display + std::str::FromStr,
+    B: num_integer::Integer + Bounded + NumCast + Copy + std::fmt::Display + std::str::FromStr,
+{
+    let smax = S::max_value().to_string();
+    let smin = S::min_value().to_string();
+    if !log.begin("siw", json!({"ty": ty, "wide": 1, "smin": smin, "smax": smax})) {
+        return;
+    }
+    // candidate values around every width boundary, as (negative, magnitude)
+    let mut cands: Vec<String> = vec![];
+    let p2 = |e: u32| -> u128 { 1u128 << e };
+    for e in [7u32, 8, 15, 16, 24, 31, 32, 53, 63, 64, 127] {
+        for d in [-2i128, -1, 0, 1, 2, 12345] {
+            let m = p2(e);
+            let v = if d < 0 { m - (-d) as u128 } else { m.saturating_add(d as u128) };
+            cands.push(v.to_string());
+            cands.push(format!("-{}", v));
+        }
+    }
+    for v in [0u128, 1, 2, 3, 200, u128::MAX, u128::MAX - 1, (1u128 << 63) + (1u128 << 62), 0xF000_0000_0000_0001] {
+        cands.push(v.to_string());
+    }
+    cands.push("-1".to_string());
+    cands.push("-3".to_string());
+    // keep what the big type can hold, in canonical form
+    let cands: Vec<(B, String)> = cands
+        .iter()
+        .filter_map(|c| c.parse::<B>().ok().map(|b| (b, b.to_string())))
+        .collect();
+    let upper_half: Vec<usize> = {
+        // values stored inline whose top bit (of an unsigned small type) is set
+        let half = (S::max_value() / (S::one() + S::one())).to_string();
+        cands
+            .iter()
+            .enumerate()
+            .filter(|(_, (b, _))| {
+                num_traits::cast::<B, S>(*b).map(|sv| sv > half.parse::<S>().ok().unwrap() && sv < S::max_value()).unwrap_or(false)
+            })
+            .map(|(i, _)| i)
+            .collect()
+    };
+    let mut s: Option<SmallInts<S, B>> = None;
+    let mut len;
+    if rng.chance(1, 3) {
+        let small: Vec<(S, String)> = cands
+            .iter()
+            .filter_map(|(b, _)| num_traits::cast::<B, S>(*b).map(|sv| (sv, sv.to_string())))
+            .collect();
+        let (v, vs) = small[rng.below(small.len() as u64) as usize].clone();
+        let n = rng.below(6) as usize;
+        let r = log.call("from_elem", json!({"v": vs, "n": n}), || {
+            s = Some(SmallInts::from_elem(v, n));
+            json!({})
+        });
+        if r["st"] != "ok" {
+            return;
+        }
+        len = n;
+    } else {
+        log.call("new", json!({}), || {
+            s = Some(SmallInts::new());
+            json!({})
+        });
+        len = 0;
+    }
+    let mut s = match s {
+        Some(s) => s,
+        None => return,
+    };
+    let wobs = |log: &mut Log, s: &SmallInts<S, B>| {
+        log.call("obs", json!({}), || {
+            let len = s.len();
+            let mut nones = 0;
+            let gets: Vec<String> = (0..len)
+                .map(|i| match s.get(i) {
+                    Some(v) => v.to_string(),
+                    None => {
+                        nones += 1;
+                        "none".to_string()
+                    }
+                })
+                .collect();
+            let beyond_none = if s.get(len).is_none() { 1 } else { 0 };
+            let it: Vec<String> = s.iter().map(|v| v.to_string()).collect();
+            let dec: Vec<String> = s.decompress().into_iter().map(|v| v.to_string()).collect();
+            let nth_nones = (len..len + 9).filter(|&n| s.iter().nth(n).is_none()).count();
+            let step3: Vec<String> = s.iter().step_by(3).map(|v| v.to_string()).collect();
+            json!({"len": len, "gets": gets, "nones": nones, "beyond_none": beyond_none, "iter": it, "dec": dec,
+                   "nth_nones": nth_nones, "step3": step3})
+        });
+    };
+    wobs(log, &s);
+    let nops = rng.range(2, 12);
+    for k in 0..nops {
+        let ci = if k % 3 == 0 && !upper_half.is_empty() {
+            log.oblige("small_value_with_top_bit_set");
+            upper_half[rng.below(upper_half.len() as u64) as usize]
+        } else {
+            rng.below(cands.len() as u64) as usize
+        };
+        let (v, vs) = cands[ci].clone();
+        let r = if len == 0 || rng.chance(3, 5) {
+            len += 1;
+            log.call("push", json!({"v": vs}), || {
+                s.push(v);
+                json!({})
+            })
+        } else {
+            let i = rng.below(len as u64) as usize;
+            log.call("set", json!({"i": i, "v": vs}), || {
+                s.set(i, v);
+                json!({})
+            })
+        };
+        if r["st"] != "ok" {
+            return;
+        }
+        wobs(log, &s);
+    }
+    log.oblige("wide_type_pairs");
+}
+
 pub fn drive(log: &mut Log) {
     let seed = log.opts.seed;
     let n = log.opts.n(800, 8000);
@@ -137,6 +266,18 @@ pub fn drive(log: &mut Log) {
             continue;
         }
         let mut rng = Rng::new(seed, 19, case);
+        if case % 3 == 0 {
+            match (case / 3) % 7 {
+                0 => wide_history::<u64, u128>(log, &mut rng, "u64_u128"),
+                1 => wide_history::<usize, u128>(log, &mut rng, "usize_u128"),
+                2 => wide_history::<u32, u64>(log, &mut rng, "u32_u64"),
+                3 => wide_history::<i32, i64>(log, &mut rng, "i32_i64"),
+                4 => wide_history::<i64, i128>(log, &mut rng, "i64_i128"),
+                5 => wide_history::<u16, u32>(log, &mut rng, "u16_u32"),
+                _ => wide_history::<u8, u64>(log, &mut rng, "u8_u64"),
+            }
+            continue;
+        }
         match case % 5 {
             0 => history::<i8, isize>(log, &mut rng, "i8_isize", -2_000_000_000, 2_000_000_000),
             1 => history::<u8, usize>(log, &mut rng, "u8_usize", 0, 2_000_000_000),
